@@ -1,4 +1,6 @@
 """Observation of error collections of the real code, and records for Trace_Errors (C05, C06, C10)."""
+import sys
+
 from harness import regex
 from harness.encode import enc, enc_str, enc_path, msg_hash
 
@@ -85,7 +87,14 @@ def make_record(i, d, cls, S, I, base="", loc=False, with_restr=False, alt=None,
            "hasinl": False, "inl": {"S": {"t": "null"}, "errs": []},
            "pats": regex.pats_table([S] + ([alt] if alt is not None else [])),
            "errs": [obs_err(e, loc) for e in errs], "loc": loc, "hasrestr": False, "restr": [], "hasalt": False,
-           "alt": {"S": {"t": "null"}, "errs": []}}
+           "alt": {"S": {"t": "null"}, "errs": []}, "bm": []}
+    if loc and errs:
+        # the error a caller of jsonschema.validate() gets: best_match over the LAZY error iterator (nothing else keeps
+        # the enclosing errors alive); it must locate itself like the same error found by walking the full list
+        js = sys.modules["jsonschema"]
+        v = cls(S, resolver=resolver_for(S)) if resolver_for else cls(S)
+        b = js.exceptions.best_match(v.iter_errors(I))
+        rec["bm"] = [obs_err(b, True)]
     if with_restr and isinstance(S, dict) and S.get("$ref") is None:
         rec["hasrestr"] = True
         for k in S:
